@@ -236,75 +236,173 @@ pub fn check_pca(c: &Case, obs: &mut Obs) {
     let dirs: Mat = comps.iter().zip(&norms).map(|(r, s)| r.iter().map(|v| v / s).collect()).collect();
     let nm1 = n as f64 - 1.0;
 
-    // ---- did the solver deliver eigenvectors at all? ------------------------------------------
-    // Certificate, from the reference covariance only: every returned direction u_j is an eigenvector of C up to
-    // |C u_j − q_j u_j| <= RESID_MAX · q_j with its own Rayleigh quotient q_j = u_j^T C u_j. It does not look at
-    // sigma, at the order of the rows or at their scale, so only a failure of the eigen-solver can trip it.
-    // PCA has no convergence flag (the LOBPCG error is swallowed in TruncatedSvd::decompose), so a result that
-    // fails the certificate is a wrong result: it is reported once, under its own signature, and the spectral
-    // obligations (which would all fail as consequences) are not evaluated for that case.
-    let mut resid = 0.0f64;
+    // ---- what kind of answer did the eigen-solver give? ---------------------------------------
+    // Quantities computed from the reference covariance and the returned *directions* (not the row order, not
+    // the row scale). With q_j = u_j^T C u_j (the variance along component j):
+    //   resid_own  = max_j |C u_j − q_j u_j| / q_j   (is u_j an eigenvector on its own scale?)
+    //   ritz_like  = the directions are mutually orthogonal and C-orthogonal (correlation <= TAU): what any
+    //                Rayleigh–Ritz step returns, converged or not
+    //   mismatch   = max_j |sigma_j^2/(n-1) − q_j| / q_j
+    // PCA has no convergence flag (the LOBPCG error is swallowed in TruncatedSvd::decompose), so nothing is skipped
+    // as "unconverged": the obligations below are evaluated at the design's tolerances on whatever is returned.
+    // The quantities only serve to give the observed faces of the LOBPCG breakdown inside 5k > p their own
+    // signatures (known findings), each recognised by what exactly is wrong:
+    //   inconsistent-components : some u_j is no eigenvector on its own scale and the answer is not even a set of
+    //                             Ritz pairs (not Ritz-like, or sigma_j^2/(n-1) is not the variance along u_j)
+    //   eigenpairs-misassigned  : all u_j are eigenvectors and all sigma_j^2/(n-1) are eigenvalues of C, but sigma_j
+    //                             belongs to another component, or they are not the leading pairs
+    //   not-leading-eigenpairs  : a λ₁-scaled optimality obligation (singular value, eigenspace, retained variance,
+    //                             random frames) fails — see below
+    let mut resid_top = 0.0f64; // relative to λ₁ (reported only)
+    let mut resid_own = 0.0f64;
     let mut mismatch = 0.0f64;
+    let mut cus: Vec<Vec<f64>> = Vec::with_capacity(kk);
+    let mut qs: Vec<f64> = Vec::with_capacity(kk);
     for j in 0..kk {
         let cu: Vec<f64> = (0..p).map(|i| (0..p).map(|t| cov[i][t] * dirs[j][t]).sum::<f64>()).collect();
         let q: f64 = cu.iter().zip(&dirs[j]).map(|(a, b)| a * b).sum();
         let r2: f64 = cu.iter().zip(&dirs[j]).map(|(a, b)| (a - q * b).powi(2)).sum();
-        resid = resid.max(r2.sqrt() / q.abs().max(1e-300));
+        resid_top = resid_top.max(r2.sqrt() / lam1);
+        resid_own = resid_own.max(r2.sqrt() / q.abs().max(1e-300));
         mismatch = mismatch.max((sigma[j] * sigma[j] / nm1 - q).abs() / q.abs().max(1e-300));
+        cus.push(cu);
+        qs.push(q);
     }
-    obs.class_if(resid > 1e-10, "residual>1e-10");
-    obs.class_if(resid > 1e-7, "residual>1e-7");
-    let mut spectral = in_range && resid <= RESID_MAX;
-    obs.class_if(!in_range && resid > RESID_MAX, "beyond_singular_ratio_1e3:solver_inaccurate");
-    // Second face of the same breakdown: every returned direction is an eigenvector of C and every
-    // sigma_j^2/(n-1) is an eigenvalue of C, but they are mis-assigned — sigma_j belongs to another component
-    // (value of eigenpair 2 with the vector of eigenpair 3), or the pairs are not the leading ones (LOBPCG locked
-    // onto eigenpair 3 and never saw eigenpair 2). Recognised by the exact wrong values; any other disagreement
-    // between sigma and the components (a value that is no eigenvalue at all) is named by the obligations below.
+    let mut ritz_like = true;
+    for a in 0..kk {
+        for b in a + 1..kk {
+            let uu: f64 = dirs[a].iter().zip(&dirs[b]).map(|(x, y)| x * y).sum();
+            let ucu: f64 = dirs[a].iter().zip(&cus[b]).map(|(x, y)| x * y).sum();
+            if uu.abs() > TAU || ucu.abs() > TAU * (qs[a].abs() * qs[b].abs()).sqrt() {
+                ritz_like = false;
+            }
+        }
+    }
+    obs.class_if(resid_own > 1e-10, "residual>1e-10");
+    obs.class_if(resid_own > 1e-7, "residual>1e-7");
+    obs.class_if(resid_own > RESID_MAX && ritz_like, "component_not_converged_on_own_scale_but_ritz_consistent");
     let l: Vec<f64> = sigma.iter().map(|s| s * s / nm1).collect();
     let values_are_eigs = l.iter().all(|v| lam.iter().any(|e| (v - e).abs() <= RESID_MAX * e.abs()));
     let leading_ok = (0..kk).all(|j| (l[j] - lam[j]).abs() <= RESID_MAX * lam[j].abs());
     let sorted = (1..kk).all(|j| sigma[j - 1] >= sigma[j]);
-    if !in_range {
-        // not judged spectrally
-    } else if spectral && small_problem && values_are_eigs && sorted && (mismatch > RESID_MAX || !leading_ok) {
+    // a component that is not an eigenvector on its own scale is acceptable only as a genuine Ritz pair
+    let garbage = resid_own > RESID_MAX && (!ritz_like || mismatch > RESID_MAX);
+    let misassigned = resid_own <= RESID_MAX && values_are_eigs && sorted && (mismatch > RESID_MAX || !leading_ok);
+    obs.class_if(!in_range && (garbage || misassigned), "beyond_singular_ratio_1e3:solver_inaccurate");
+    // `spectral`: the solver-dependent obligations are evaluated
+    let mut spectral = in_range;
+    let describe = |what: &str| {
+        format!(
+            "n={n}, p={p}, embedding size {k}, whiten={}: {what}; sigma^2/(n-1) = {:?}, variances along the components = {:?}, \
+             covariance eigenvalues = {:?} (eigen-residual {resid_own:.2e} relative to the component's variance, {resid_top:.2e} relative to lambda_1)",
+            c.whiten, l, qs, lam
+        )
+    };
+    if in_range && small_problem && (garbage || misassigned) {
         spectral = false;
-        obs.class("solver_failed:eigenpairs_misassigned");
-        obs.class_if(k > 1 && k < p && p % k != 0, "solver_failed:k_does_not_divide_p");
-        obs.fail(
-            "pca:solver-breakdown:eigenpairs-misassigned",
-            format!(
-                "n={n}, p={p}, embedding size {k}, whiten={}: components are eigenvectors and sigma^2/(n-1) are eigenvalues of the sample covariance, but \
-                 {}; sigma^2/(n-1) = {:?}, variances along the components = {:?}, covariance eigenvalues = {:?}",
-                c.whiten,
-                if mismatch > RESID_MAX { "a sigma_j belongs to another component" } else { "they are not the leading eigenpairs" },
-                l,
-                dirs.iter().map(|d| retained(&vec![d.clone()], &cov)).collect::<Vec<_>>(),
-                lam
-            ),
-        );
-    } else if !spectral {
         obs.class("solver_failed");
         obs.class_if(k > 1 && k < p && p % k != 0, "solver_failed:k_does_not_divide_p");
         obs.class_if(k == p, "solver_failed:k=p");
         obs.class_if(wide_range, "solver_failed:wide_range");
-        let detail = format!(
-            "n={n}, p={p}, embedding size {k}, whiten={}: a returned component is not an eigenvector of the sample covariance \
-             (residual {resid:.3e} relative to its Rayleigh quotient); sigma^2/(n-1) = {:?}, covariance eigenvalues = {:?}",
-            c.whiten,
-            sigma.iter().map(|s| s * s / nm1).collect::<Vec<_>>(),
-            lam
-        );
-        if small_problem {
-            obs.fail("pca:solver-breakdown:wrong-components", detail);
+        if garbage {
+            obs.fail(
+                "pca:solver-breakdown:inconsistent-components",
+                describe(if !ritz_like {
+                    "a returned component is not an eigenvector of the sample covariance on its own scale, and the components are not mutually orthogonal / uncorrelated either"
+                } else {
+                    "a returned component is not an eigenvector of the sample covariance on its own scale, and sigma^2/(n-1) is not the variance along it either (no Ritz pair)"
+                }),
+            );
         } else {
-            obs.fail("pca:not-converged", detail);
+            obs.fail(
+                "pca:solver-breakdown:eigenpairs-misassigned",
+                describe(if mismatch > RESID_MAX {
+                    "components are eigenvectors and sigma^2/(n-1) are eigenvalues of the sample covariance, but a sigma_j belongs to another component"
+                } else {
+                    "components are eigenvectors and sigma^2/(n-1) are eigenvalues of the sample covariance, but they are not the leading eigenpairs"
+                }),
+            );
         }
-    } else {
-        obs.class("judged_spectral");
-        obs.class_if(k < p && clear_gap, "judged_spectral_k<p_clear_gap");
-        obs.class_if(wide_range, "judged_spectral_wide_range");
-        obs.class_if(k > 1 && k < p, "judged_spectral_1<k<p");
+    }
+
+    // ---- singular values: order ---------------------------------------------------------------
+    for j in 1..kk {
+        obs.ensure(sigma[j - 1] >= sigma[j], "pca:order", || {
+            format!("singular values not non-increasing: {:?}", sigma)
+        });
+    }
+
+    // ---- λ₁-scaled optimality obligations ------------------------------------------------------
+    // (sigma_j^2/(n-1) = λ_j, span = leading eigenspace, retained variance >= top-k sum and >= random frames).
+    let mut optimal: Vec<(&'static str, String)> = vec![];
+    if spectral {
+        for j in 0..kk {
+            if (l[j] - lam[j]).abs() > TAU * lam1 {
+                optimal.push((
+                    "pca:singular-value",
+                    format!("sigma[{j}]^2/(n-1) = {}, eigenvalue {j} of the sample covariance is {} (lambda_1 = {lam1})", l[j], lam[j]),
+                ));
+                break;
+            }
+        }
+        if kk == k && (clear_gap || k == p) {
+            let lead: Mat = evecs.iter().take(k).cloned().collect();
+            let d = projector_diff(&dirs, &lead, p);
+            let bound = if k == p { TAU * (p as f64) } else { 5.0 * TAU * lam1 / gap };
+            if !(d <= bound) {
+                optimal.push((
+                    "pca:subspace",
+                    format!("projector onto the components differs from the leading-{k} eigenprojector by {d} (bound {bound}, gap/lambda_1 = {})", gap / lam1),
+                ));
+            }
+        }
+        let kept = retained(&dirs, &cov);
+        let top: f64 = lam.iter().take(kk).sum();
+        if !(kept >= top - TAU * lam1) {
+            optimal.push(("pca:retained-variance", format!("components retain variance {kept}, the top-{kk} eigenvalues sum to {top}")));
+        }
+        let mut rng = SplitMix(c.frame_seed);
+        for f in 0..FRAMES {
+            let raw: Mat = (0..kk).map(|_| (0..p).map(|_| rng.gauss()).collect()).collect();
+            let frame = orthonormal_rows(&raw, p);
+            if frame.len() != kk {
+                continue;
+            }
+            let r = retained(&frame, &cov);
+            if !(kept >= r - TAU * lam1) {
+                optimal.push((
+                    "pca:beaten-by-random-frame",
+                    format!("random orthonormal {kk}-frame #{f} retains {r} > {kept} retained by the components"),
+                ));
+                break;
+            }
+        }
+        if optimal.is_empty() {
+            obs.class("judged_spectral");
+            obs.class_if(k < p && clear_gap, "judged_spectral_k<p_clear_gap");
+            obs.class_if(wide_range, "judged_spectral_wide_range");
+            obs.class_if(k > 1 && k < p, "judged_spectral_1<k<p");
+            obs.class_if(!small_problem, "judged_spectral_5k<=p");
+        } else if small_problem {
+            // third face of the LOBPCG breakdown inside 5k > p: the answer is not the leading eigen-solution
+            obs.class("solver_failed");
+            obs.class("solver_failed:not_leading");
+            obs.class_if(k > 1 && k < p && p % k != 0, "solver_failed:k_does_not_divide_p");
+            obs.class_if(k == p, "solver_failed:k=p");
+            obs.class_if(wide_range, "solver_failed:wide_range");
+            let names: Vec<&str> = optimal.iter().map(|(s, _)| *s).collect();
+            obs.fail(
+                "pca:solver-breakdown:not-leading-eigenpairs",
+                describe(&format!("the returned pairs are not the leading eigenpairs within TAU*lambda_1 (failed: {:?}; {})", names, optimal[0].1)),
+            );
+            // whatever else is wrong with this answer (sigma vs. variance along the component, orthogonality) is a
+            // consequence of the same breakdown
+            spectral = false;
+        } else {
+            for (sig, msg) in optimal.drain(..) {
+                obs.fail(sig, msg);
+            }
+        }
     }
 
     let mut orth_ok = true;
@@ -321,48 +419,6 @@ pub fn check_pca(c: &Case, obs: &mut Obs) {
                 }
             }
         }
-    }
-
-    // ---- singular values: order and size -----------------------------------------------------
-    for j in 1..kk {
-        obs.ensure(sigma[j - 1] >= sigma[j], "pca:order", || {
-            format!("singular values not non-increasing: {:?}", sigma)
-        });
-    }
-    for j in 0..kk {
-        let v = sigma[j] * sigma[j] / nm1;
-        obs.ensure(!spectral || (v - lam[j]).abs() <= TAU * lam1, "pca:singular-value", || {
-            format!("sigma[{j}]^2/(n-1) = {v}, eigenvalue {j} of the sample covariance is {} (lambda_1 = {lam1})", lam[j])
-        });
-    }
-
-    // ---- leading eigenspace ------------------------------------------------------------------
-    if spectral && kk == k && (clear_gap || k == p) {
-        let lead: Mat = evecs.iter().take(k).cloned().collect();
-        let d = projector_diff(&dirs, &lead, p);
-        let bound = if k == p { TAU * (p as f64) } else { 5.0 * TAU * lam1 / gap };
-        obs.ensure(d <= bound, "pca:subspace", || {
-            format!("projector onto the components differs from the leading-{k} eigenprojector by {d} (bound {bound}, gap/lambda_1 = {})", gap / lam1)
-        });
-    }
-
-    // ---- optimality --------------------------------------------------------------------------
-    let kept = retained(&dirs, &cov);
-    let top: f64 = lam.iter().take(kk).sum();
-    obs.ensure(!spectral || kept >= top - TAU * lam1, "pca:retained-variance", || {
-        format!("components retain variance {kept}, the top-{kk} eigenvalues sum to {top}")
-    });
-    let mut rng = SplitMix(c.frame_seed);
-    for f in 0..FRAMES {
-        let raw: Mat = (0..kk).map(|_| (0..p).map(|_| rng.gauss()).collect()).collect();
-        let frame = orthonormal_rows(&raw, p);
-        if frame.len() != kk {
-            continue;
-        }
-        let r = retained(&frame, &cov);
-        obs.ensure(!spectral || kept >= r - TAU * lam1, "pca:beaten-by-random-frame", || {
-            format!("random orthonormal {kk}-frame #{f} retains {r} > {kept} retained by the components")
-        });
     }
 
     // ---- scores: predict, transform, reference product ---------------------------------------
